@@ -119,7 +119,8 @@ class Check:
         cmd += (extra_args or []) + [module + ".tla"]
         env = dict(os.environ)
         # deep (lazy) values such as long version stores overflow the default Java stack
-        env["JAVA_TOOL_OPTIONS"] = (env.get("JAVA_TOOL_OPTIONS", "") + " -Xss512m").strip()
+        # (java.io.tmpdir: TLC leaves one tlc-<n> directory per run in the JVM's temporary directory)
+        env["JAVA_TOOL_OPTIONS"] = (env.get("JAVA_TOOL_OPTIONS", "") + " -Xss512m -Djava.io.tmpdir=" + d).strip()
         if deque:
             env["JAVA_TOOL_OPTIONS"] = (env.get("JAVA_TOOL_OPTIONS", "") +
                                         " -Dtlc2.tool.queue.IStateQueue=StateDeque").strip()
